@@ -1507,6 +1507,9 @@ def param_iter_finite(prog, body, param):
 def loop_len_grows(prog, body, lm):
     """while v.len() < E { ...; v.push(..) }  with E loop-invariant."""
     s = sym_of(body)
+    r = _loop_len_grows_nf(prog, body, lm)
+    if r:
+        return r
     for a, b in lm.lp["exits"]:
         t = body.blocks[a]["term"]
         if t["k"] != "switch":
@@ -1525,6 +1528,41 @@ def loop_len_grows(prog, body, lm):
             if pushes:
                 return ("LEN-GROWS", "loop runs while len(v) < %s and every iteration pushes" % describe(bound, body))
     return None
+
+
+def _loop_len_grows_nf(prog, body, lm):
+    """Same schema on normal forms: every path round the loop runs under len(v) < E (E loop-invariant, any
+    spelling: `while len < E`, `loop { if len >= E { break } .. }`) and passes a push."""
+    from ..paths import loop_system
+    from ..poly import fact_nf, Poly
+    backs = [t for t in loop_system(prog, body, lm, [], []) if t.kind == "back"]
+    if not backs:
+        return None
+    pushes = [blk for blk in lm.blocks if body.blocks[blk]["term"]["k"] == "call" and body.callee(blk).name == "Vec::push"]
+    if not pushes:
+        return None
+    for tsrc, h in lm.lp["back_edges"]:
+        if not any(body.cfg.dominates(p, tsrc) for p in pushes):
+            return None
+    bound = None
+    for t in backs:
+        found = None
+        for f in t.facts:
+            if f[0][0] != "cmp":
+                continue
+            k, q = fact_nf(f)
+            if k != "ge0":
+                continue
+            for a in q.atoms():
+                if isinstance(a, tuple) and a[0] == "call" and a[1] == "Vec::len" and q.m.get((a,)) == -1:
+                    e = q + Poly.atom(a) + Poly.const(1)        # len + 1 <= e'  ==>  len < e
+                    if _loop_invariant(body, lm, e) and not any(x == a for x in e.atoms()):
+                        found = (a, e)
+        if found is None or (bound is not None and found != bound):
+            return None
+        bound = found
+    return ("LEN-GROWS", "loop runs while %s < %s and every iteration pushes" % (
+        describe(bound[0], body), bound[1].show(lambda t: describe(t, body))))
 
 
 def _suffix_offset(v, root, depth=0):
